@@ -446,6 +446,15 @@ func readerFlow(d *declInfo, src types.Object, owners map[string]bool, sub map[s
 						out.add(sel.Sel.Name, f)
 					}
 				case *ast.IfStmt:
+					// `if _, ok := dst.F[k]; !ok { dst.F[k] = v }`: a test of the destination's own
+					// field decides nothing about other attributes
+					if init, isAs := y.Init.(*ast.AssignStmt); isAs && len(init.Rhs) == 1 {
+						if lix, isIx := ast.Unparen(init.Rhs[0]).(*ast.IndexExpr); isIx {
+							if lsel, isSel := lix.X.(*ast.SelectorExpr); isSel && lsel.Sel.Name == sel.Sel.Name && objOf(d.pkg, lsel.X) != nil && objOf(d.pkg, lsel.X) == objOf(d.pkg, sel.X) {
+								continue
+							}
+						}
+					}
 					for f := range srcFieldsOf(d, y.Cond, src, locals) {
 						out.add(sel.Sel.Name, f)
 					}
@@ -672,6 +681,7 @@ func dateFormats(c *Ctx) {
 			found = true
 			layout, viaFormat := "", false
 			presenceByValue := ""
+			adjusted := "" // a method between AsTime() and Format that changes the instant
 			findFormat := func(pk *packages.Package, node ast.Node) {
 				ast.Inspect(node, func(n ast.Node) bool {
 					ce, ok := n.(*ast.CallExpr)
@@ -682,6 +692,38 @@ func dateFormats(c *Ctx) {
 						viaFormat = true
 						if v, ok := constOf(pk, ce.Args[0]); ok && v.isStr() {
 							layout = v.str()
+						}
+						// the value formatted is the timestamp's instant: only zone changes and
+						// truncation to the second (which the layout performs anyway) lie between
+						recv := ast.Expr(nil)
+						if sel, isSel := ce.Fun.(*ast.SelectorExpr); isSel {
+							recv = sel.X
+						}
+						for i := 0; recv != nil && i < 8; i++ {
+							inner, isCall := ast.Unparen(recv).(*ast.CallExpr)
+							if !isCall {
+								break
+							}
+							g, _ := typeutil.Callee(pk.TypesInfo, inner).(*types.Func)
+							isel, isSel := inner.Fun.(*ast.SelectorExpr)
+							if g == nil || !isSel {
+								break
+							}
+							switch g.FullName() {
+							case "(time.Time).UTC", "(time.Time).In", "(time.Time).Local":
+							case "(time.Time).Truncate":
+								if v, okc := constOf(pk, inner.Args[0]); !okc || !v.isInt() || v.int() > 1000000000 || v.int() <= 0 {
+									adjusted = types.ExprString(inner.Fun) + "(" + types.ExprString(inner.Args[0]) + ")"
+								}
+							default:
+								if strings.HasPrefix(g.FullName(), "(time.Time).") {
+									adjusted = "." + isel.Sel.Name + "(…)"
+								}
+							}
+							if !strings.HasPrefix(g.FullName(), "(time.Time).") {
+								break
+							}
+							recv = isel.X
 						}
 					}
 					return true
@@ -743,6 +785,8 @@ func dateFormats(c *Ctx) {
 				continue
 			}
 			switch {
+			case viaFormat && adjusted != "":
+				c.bad(R, construct, c.P.Pos(fi.pos), fmt.Sprintf("%s is not the timestamp's own instant: %s is applied before formatting, so some dates are written as a different second than the one stored (rounding moves .5 s and above to the next second) and do not read back \"to the second\"", pair[0], adjusted))
 			case !viaFormat:
 				c.bad(R, construct, c.P.Pos(fi.pos), fmt.Sprintf("%s is written as %s, not through (time.Time).Format with a constant layout: the reader's time.Parse(%v) cannot read it back, so the date is lost", pair[0], types.ExprString(fi.value), readLayouts))
 			case !accepted(layout):
